@@ -32,7 +32,7 @@ theorem inv_reachable (c : Consts) (ops : List Op) : Inv c (run c init ops) :=
 theorem reachable_facts (c : Consts) (ops : List Op) :
     let s := run c init ops
     (∀ n data, findBlob s.1.blobs n = some data →
-        data = n ∧ ∃ payload, n = c.header ++ payload ∧ readBlob c s.1 n = some payload) ∧
+        data = n ∧ ∃ payload, n = c.header ++ payload ∧ readBlob c s.1 n = (s.1, some payload)) ∧
     (∀ mf, s.1.manifest = some mf →
         mf.schema = c.schemaVersion ∧ ∀ n ∈ referenced mf.files, ∃ data, findBlob s.1.blobs n = some data) ∧
     (∀ m, s.2 = some m →
@@ -176,7 +176,8 @@ theorem reopen_same_key (c : Consts) (ops rest : List Op) (m : Mem)
     let d' := (run c init (ops ++ Op.save :: rest)).1
     ∀ p, entry (openStore c d' m.key) p = lookup m.next p ∧
       ∀ e, lookup m.next p = some e →
-        load c d' e = load c d e ∧ loadDiagnostics c d' e = loadDiagnostics c d e := by
+        (load c d' e).2 = (load c d e).2 ∧
+        (loadDiagnostics c d' e).2 = (loadDiagnostics c d e).2 := by
   intro d d' p
   have hs0 : run c init ops = (d, some m) := Prod.ext rfl hm
   have hinv : Inv c (d, some m) := hs0 ▸ inv_reachable c ops
@@ -187,7 +188,7 @@ theorem reopen_same_key (c : Consts) (ops rest : List Op) (m : Mem)
   have hman : d'.manifest = some mf := by
     rw [hd', run_manifest _ hrest]; exact hmf
   have hext : Ext (save c d m).1.blobs d'.blobs := by
-    rw [hd']; exact run_ext (c := c) ((save c d m).1, some (save c d m).2) hrest
+    rw [hd']; exact run_ext (inv_save hinv) hrest
   refine ⟨?_, ?_⟩
   · rw [← hkey, entry_openStore hman hsch, hlk]
   · intro e he
@@ -227,7 +228,7 @@ theorem reopen_same_key_payloads (c : Consts) (ops rest : List Op) (sess : ASess
     | some e =>
       obtain ⟨hl, hd⟩ := h3 e he
       simp only [Option.map_some, absEntry]
-      rw [show load c d' e = _ from hl, show loadDiagnostics c d' e = _ from hd]
+      rw [show (load c d' e).2 = _ from hl, show (loadDiagnostics c d' e).2 = _ from hd]
 
 /-! ## Second sentence — other key, other schema -/
 
@@ -283,7 +284,7 @@ theorem gc_keeps_referenced (c : Consts) (ops : List Op) (m : Mem)
     let d' := (save c d m).1
     ∀ mf, d'.manifest = some mf → ∀ n ∈ referenced mf.files,
       ∃ data, findBlob d'.blobs n = some data ∧ findBlob d.blobs n = some data ∧
-        ∃ payload, data = c.header ++ payload ∧ readBlob c d' n = some payload := by
+        ∃ payload, data = c.header ++ payload ∧ readBlob c d' n = (d', some payload) := by
   intro d d' mf hmf n hn
   have hs0 : run c init ops = (d, some m) := Prod.ext rfl hm
   have hinv : Inv c (d, some m) := hs0 ▸ inv_reachable c ops
@@ -322,6 +323,43 @@ theorem save_keeps_next_blobs (c : Consts) (ops : List Op) (m : Mem)
   have hinv : Inv c (d, some m) := hs0 ▸ inv_reachable c ops
   obtain ⟨data, hd⟩ := hinv.memNext m rfl n hn
   exact ⟨data, by rw [save_find hn]; exact hd, hd⟩
+
+/-! ## Reads verify the content hash (repo commit 7005a14) -/
+
+/-- In a state satisfying the invariant, `read_blob` never takes its removal branch: the disk is
+    unchanged, for every blob name (hence for `load` / `load_diagnostics` of any entry). -/
+theorem read_blob_never_removes_under_inv (c : Consts) (s : State) (h : Inv c s) (n : String) :
+    (readBlob c s.1 n).1 = s.1 :=
+  readBlob_fst_of_blobsOk h.blobs n
+
+/-- So in every reachable state the read operations `load` / `load_diagnostics` are the identity
+    (they are operations of `step` because in general they can delete a file). -/
+theorem loads_are_noops (c : Consts) (ops : List Op) (p : String) :
+    step c (run c init ops) (.load p) = run c init ops ∧
+    step c (run c init ops) (.loadDiagnostics p) = run c init ops :=
+  ⟨step_load (inv_reachable c ops).blobs p, step_loadDiagnostics (inv_reachable c ops).blobs p⟩
+
+/-- On **any** disk: a blob file whose content differs from its name is never returned; it is
+    removed, and no other file is touched. -/
+theorem read_blob_rejects_foreign_bytes (c : Consts) (d : Disk) (n data : String)
+    (h : findBlob d.blobs n = some data) (hne : data ≠ n) :
+    (readBlob c d n).2 = none ∧ findBlob (readBlob c d n).1.blobs n = none ∧
+    (readBlob c d n).1.manifest = d.manifest ∧
+    ∀ n', n' ≠ n → findBlob (readBlob c d n).1.blobs n' = findBlob d.blobs n' := by
+  rw [readBlob_foreign h hne]
+  refine ⟨rfl, ?_, rfl, ?_⟩
+  · have := findBlob_filter d.blobs (fun k => decide (k ≠ n)) n
+    simpa using this
+  · intro n' hn'
+    have := findBlob_filter d.blobs (fun k => decide (k ≠ n)) n'
+    simpa [hn'] using this
+
+/-- On **any** disk: whatever `read_blob` returns is the payload of a file stored under the name
+    `header ++ payload` whose content is that name; and then nothing was removed. -/
+theorem read_blob_sound (c : Consts) (d : Disk) (n payload : String)
+    (h : (readBlob c d n).2 = some payload) :
+    findBlob d.blobs n = some n ∧ n = c.header ++ payload ∧ (readBlob c d n).1 = d :=
+  readBlob_some h
 
 /-! ## Non-vacuity: a concrete history with an identical re-scan and a key change -/
 
@@ -398,5 +436,11 @@ example :
     let d := (run exConsts init (exBuild ++ [Op.save])).1
     (entry (openStore exConsts d "k1") "a").isSome = true ∧
     entry (openStore { schemaVersion := 3, header := "VFRG#3#" } d "k1") "a" = none := by decide
+
+/-- `read_blob_rejects_foreign_bytes` is not vacuous: a damaged file (right name, wrong bytes,
+    even with a valid header) satisfies its hypotheses. -/
+example :
+    let d : Disk := { manifest := none, blobs := [("VFRG#2#ab", "VFRG#2#xy"), ("VFRG#2#q", "VFRG#2#q")] }
+    findBlob d.blobs "VFRG#2#ab" = some "VFRG#2#xy" ∧ "VFRG#2#xy" ≠ "VFRG#2#ab" := by decide
 
 end VerylModel.Props.C29
